@@ -1,7 +1,8 @@
 (* C16 — Nothing follows a Close frame: no data frames and no second Close frame.
-   Statements only; proofs in Proofs/AfterCloseP.v (sequential writer) and Proofs/SchedP.v (all interleavings, when present). *)
+   Statements only; proofs in Proofs/AfterCloseP.v (sequential writer), Proofs/SchedP.v (all interleavings) and
+   Proofs/ReaderOneCloseP.v (closes triggered by the read side). *)
 From Coq Require Import List NArith ZArith Bool.
-From WS Require Import Base.Words Model.Mask Model.Frame Model.Proto Model.Writer Proofs.AfterCloseP Model.Sched Proofs.SchedP.
+From WS Require Import Base.Words Model.Mask Model.Frame Model.Proto Model.Writer Model.Reader Proofs.ReaderOneCloseP Proofs.AfterCloseP Model.Sched Proofs.SchedP.
 Import ListNotations.
 Open Scope N_scope.
 
@@ -33,3 +34,22 @@ Example C16_nonvacuous :
   let prog := [WWrite 1 [1]; WClose 1000 []; WWrite 2 [2]; WStream 1 [[3]; [4]]; WControl 10 [5]; WClose 1001 []] in
   map (fun f => h_opc (fst f)) (w_out (w_run (fun _ => zero_key) (fun _ => []) {| wc_role := Server; wc_co := None; wc_thr0 := 0 |} prog)) = [1; 8; 10].
 Proof. vm_compute. reflexivity. Qed.
+
+
+(* ---- closes triggered by the READ side (protocol violation, read limit, the echo of the peer's Close frame) ----
+   For EVERY configuration, inflater, limit, input stream (any bytes at all: valid, malformed, hostile), transport ending and
+   read script: the read side writes at most one Close frame, the close-sent flag is exactly "a Close frame has been written",
+   and everything written after (and before) the Close frame is a Pong. *)
+Theorem C16_reader_at_most_one_close : forall cfg inflate lim stream e ops,
+  let r := Reader.run cfg inflate lim stream e ops in
+  (length (filter is_close_reply (r_replies (snd r))) <= 1)%nat /\
+  (r_close_sent (snd r) = true <-> exists c rs, In (RpClose c rs) (r_replies (snd r))).
+Proof. exact reader_at_most_one_close. Qed.
+Print Assumptions C16_reader_at_most_one_close.
+
+Theorem C16_reader_only_pongs_around_close : forall cfg inflate lim stream e ops a c rs b,
+  let r := Reader.run cfg inflate lim stream e ops in
+  r_replies (snd r) = a ++ RpClose c rs :: b ->
+  Forall (fun x => exists p, x = RpPong p) b /\ Forall (fun x => exists p, x = RpPong p) a /\ r_close_sent (snd r) = true.
+Proof. exact reader_only_pongs_after_close. Qed.
+Print Assumptions C16_reader_only_pongs_around_close.
